@@ -682,6 +682,8 @@ func (r *Runner) builtin(ctx context.Context, pos syntax.Pos, name string, args 
 		}
 		switch len(args) {
 		case 0:
+			// like "exit", a bare "return" keeps the status of the last command
+			exit.code = r.lastExit.code
 		case 1:
 			n, err := strconv.Atoi(args[0])
 			if err != nil {
